@@ -586,7 +586,10 @@ class Engine:
             raise Untranslated('ordering between %s and %s' % (a.kind, b.kind))
         if isinstance(op, (ast.In, ast.NotIn)):
             if isinstance(b, VConf):
-                e = z3.Select(T.Conf.chas(b.z), a.z)
+                if isinstance(a, VDyn):
+                    e = z3.And(T.Val.is_VS(a.z), z3.Select(T.Conf.chas(b.z), T.Val.sval(a.z)))
+                else:
+                    e = z3.Select(T.Conf.chas(b.z), a.z)
             elif isinstance(b, VTuple):
                 es = []
                 for it in b.items:
@@ -630,7 +633,12 @@ class Engine:
                 return VStr(a.py + b.py), raises
             return VStr(z3.Concat(a.z, b.z)), raises
         if isinstance(op, ast.Mod) and isinstance(a, VStr):
-            return VStr(fresh('fmt', T.S)), self.format_raises(st, a, b)
+            # the formatted text is a deterministic (uninterpreted) function of format and arguments
+            try:
+                arg = to_val(b)
+            except Untranslated:
+                return VStr(fresh('fmt', T.S)), self.format_raises(st, a, b)
+            return VStr(z3.Function('strfmt', T.S, T.Val, T.S)(a.z, arg)), self.format_raises(st, a, b)
         if isinstance(op, ast.Add) and isinstance(a, VList) and isinstance(b, VList):
             # list concatenation creates a new list
             r = self.alloc(st)
@@ -786,6 +794,10 @@ class Engine:
             raises.append((z3.Not(has), 'KeyError'))
             return self.wrap(base.vkind, z3.Select(z3.Select(st.heap[base.key + '#val'], base.owner), kz)), raises
         if isinstance(base, VConf):
+            if isinstance(idx, VDyn):       # a key that is not a str is never present
+                key = T.Val.sval(idx.z)
+                raises.append((z3.Not(z3.And(T.Val.is_VS(idx.z), z3.Select(T.Conf.chas(base.z), key))), 'KeyError'))
+                return VDyn(z3.Select(T.Conf.cval(base.z), key)), raises
             raises.append((z3.Not(z3.Select(T.Conf.chas(base.z), idx.z)), 'KeyError'))
             return VDyn(z3.Select(T.Conf.cval(base.z), idx.z)), raises
         if isinstance(base, VKw):
